@@ -596,6 +596,10 @@ namespace
 	      && (tag != DW_TAG_base_type
 		  || ! dwarf_hasattr_integrate (&type_die, DW_AT_encoding)))
 	    {
+	      // A DIE without a name is no error.  libdw keeps the last
+	      // error of the thread until somebody asks: forget what an
+	      // earlier, unrelated call may have left there.
+	      dwarf_errno ();
 	      char const *name = dwarf_diename (&type_die);
 	      if (name == nullptr)
 		{
